@@ -23,16 +23,20 @@ func TestMain(m *testing.M) { vlib.Main(m) }
 var lateRuns int64
 
 type scenario struct {
-	Kind     string  `json:"kind"`     // "handler" | "actor"
-	Cap      int     `json:"cap"`      // mailbox capacity; -1 = library default constructor
-	Counts   []int   `json:"counts"`   // messages per sender
-	Work     int     `json:"work"`     // yields inside each message
-	SendGap  int     `json:"sendGap"`  // yields between sends
-	PostLate int     `json:"postLate"` // submissions after Close
+	Kind     string `json:"kind"`     // "handler" | "actor"
+	Cap      int    `json:"cap"`      // mailbox capacity; -1 = library default constructor
+	Counts   []int  `json:"counts"`   // messages per sender
+	Work     int    `json:"work"`     // yields inside each message
+	SendGap  int    `json:"sendGap"`  // yields between sends
+	PostLate int    `json:"postLate"` // submissions after Close
+	// CloseEarly: the first message is held on a gate, all senders finish (the mailbox buffers
+	// everything), Close() is called while the messages are still pending, then the gate opens:
+	// everything submitted before Close must still be processed exactly once.
+	CloseEarly bool `json:"closeEarly"`
 }
 
 func (s scenario) String() string {
-	return fmt.Sprintf("%s cap=%d counts=%v work=%d gap=%d late=%d", s.Kind, s.Cap, s.Counts, s.Work, s.SendGap, s.PostLate)
+	return fmt.Sprintf("%s cap=%d counts=%v work=%d gap=%d late=%d closeEarly=%v", s.Kind, s.Cap, s.Counts, s.Work, s.SendGap, s.PostLate, s.CloseEarly)
 }
 
 type tag struct{ sender, seq int }
@@ -44,14 +48,19 @@ type result struct {
 }
 
 type mailbox struct {
-	inflight int32
-	maxIn    int32
-	mu       sync.Mutex
-	log      []tag
+	gate      chan struct{}
+	gateUsed  int32
+	inflight  int32
+	maxIn     int32
+	mu        sync.Mutex
+	log       []tag
 	wrongSelf int32
 }
 
 func (mb *mailbox) process(tg tag, work int) {
+	if mb.gate != nil && atomic.CompareAndSwapInt32(&mb.gateUsed, 0, 1) {
+		<-mb.gate
+	}
 	n := atomic.AddInt32(&mb.inflight, 1)
 	for {
 		m := atomic.LoadInt32(&mb.maxIn)
@@ -92,12 +101,32 @@ func genScenario(t *rapid.T) scenario {
 	s.Work = rapid.SampledFrom([]int{0, 0, 1, 3}).Draw(t, "work")
 	s.SendGap = rapid.SampledFrom([]int{0, 0, 1, 2}).Draw(t, "gap")
 	s.PostLate = rapid.IntRange(0, 3).Draw(t, "late")
+	if s.Cap >= 1 && rapid.IntRange(0, 2).Draw(t, "closeEarly") == 0 {
+		// keep the total within the mailbox capacity so that all senders can finish while the gate is shut
+		s.CloseEarly = true
+		left := s.Cap
+		var counts []int
+		for _, c := range s.Counts {
+			if left == 0 {
+				break
+			}
+			if c > left {
+				c = left
+			}
+			counts = append(counts, c)
+			left -= c
+		}
+		s.Counts = counts
+	}
 	return s
 }
 
 func runScenario(s scenario) result {
 	var res result
 	mb := &mailbox{}
+	if s.CloseEarly {
+		mb.gate = make(chan struct{})
+	}
 	var send func(tg tag)
 	var closeIt func()
 	var actor *fpgo.ActorDef[tag]
@@ -179,19 +208,27 @@ func runScenario(s scenario) result {
 			return res
 		}
 	}
+	closedEarly := false
+	if s.CloseEarly {
+		closeIt() // everything was submitted (Send/Post returned) before this Close
+		closedEarly = true
+		close(mb.gate)
+	}
 	if !vlib.WaitUntil(vlib.StallBudget(), func() bool { return mb.count() >= total }) {
 		time.Sleep(100 * time.Millisecond)
 		c1 := mb.count()
 		time.Sleep(300 * time.Millisecond)
 		if c2 := mb.count(); c2 == c1 && c1 < total && atomic.LoadInt32(&mb.inflight) == 0 {
 			res.failKey = "C12/lost"
-			res.failMsg = fmt.Sprintf("only %d of %d submitted messages were processed and the mailbox is idle", c1, total)
+			res.failMsg = fmt.Sprintf("only %d of %d submitted messages were processed and the mailbox is idle (closeEarly=%v)", c1, total, s.CloseEarly)
 		} else {
 			res.inconclusive = "processing slow"
 		}
 		return res
 	}
-	closeIt()
+	if !closedEarly {
+		closeIt()
+	}
 	// submissions after Close has returned must be dropped, without panic
 	lateBefore := atomic.LoadInt64(&lateRuns)
 	for i := 0; i < s.PostLate; i++ {
@@ -468,6 +505,8 @@ func TestRegress(t *testing.T) {
 		{Kind: "handler", Cap: -1, Counts: []int{5, 5}, Work: 1, PostLate: 2},
 		{Kind: "actor", Cap: 4, Counts: []int{20, 20, 20}, Work: 1, PostLate: 1},
 		{Kind: "handler", Cap: 64, Counts: []int{50, 50, 50, 50}, Work: 3, SendGap: 1, PostLate: 3},
+		{Kind: "actor", Cap: 4, Counts: []int{2, 2}, CloseEarly: true, PostLate: 1},
+		{Kind: "handler", Cap: 1, Counts: []int{1}, CloseEarly: true},
 	}
 	for _, s := range cases {
 		vlib.S().Eval("regress")
